@@ -17,21 +17,28 @@ import (
 // canonical arguments, so inlining or extracting helpers does not change the term.
 
 func init() {
-	register(&Rule{ID: "R13.4", Props: []string{"C13"}, Floor: 2,
+	register(&Rule{ID: "R13.4", Props: []string{"C13", "C16"}, Floor: 2,
 		Doc: "the parser visits what the accessors open: the slice ParseList/ParseMessage pass to the recursive ParseValue equals, as a canonical term over (container, index), the slice that List.Get / Message.FieldAt open for the same index",
 		Run: runR13_4})
 }
 
-func runR13_4(c *Ctx, r *R) {
+func runR13_4(c *Ctx, outer *R) {
 	for _, pair := range []struct{ parser, accessor string }{
 		{"ParseList", "List.Get"},
 		{"ParseMessage", "Message.FieldAt"},
 	} {
-		pf := r.Need("internal/types", pair.parser)
-		af := r.Need("internal/types", pair.accessor)
+		pf := outer.Need("internal/types", pair.parser)
+		af := outer.Need("internal/types", pair.accessor)
 		if pf == nil || af == nil {
 			continue
 		}
+		// Message.FieldAt is also what MessageWriter.Copy/Merge read unknown fields with (C16)
+		props := []string{"C13"}
+		if pair.accessor == "Message.FieldAt" {
+			props = []string{"C13", "C16"}
+		}
+		r := &R{c: c, rule: &Rule{ID: outer.rule.ID, Props: props}}
+		defer func() { outer.n += r.n }()
 		key := fmt.Sprintf("%s/visited == %s/opened", fnKey(pf), pair.accessor)
 		an := &agreeAn{c: c, g: &gsyms{ids: map[string]int{}}, seenC: map[string]bool{}, cnts: map[string][]int{}, rsOf: map[string]int{}, noInline: true}
 		mk := func(fn *ssa.Function) *gEnv {
